@@ -55,6 +55,8 @@ def corpus(tier):
     shape('trailing', lambda w, v: [('data', [0, 2 * w, 9, 9, 9, 9]), ('seg', 0, 2, 0, 2)])
     shape('shared', lambda w, v: [('data', [0, 2 * w]), ('seg', 0, 2, 0, 2), ('seg', 4, 2, 0, 2)] if v in (0, 1) else None)
     shape('empty-data', lambda w, v: [('seg', 0, 2, 0, 0)])
+    # a reserve-only segment (no data) between / next to segments with data: its start / length fields can be made to overlap them
+    shape('reserve-only', lambda w, v: [('data', [0, 2 * w, 5, 6]), ('seg', 0, 4, 0, 4), ('seg', 4, 4, 4, 0), ('data', [7, 8]), ('seg', 8, 2, 4, 2)])
 
     # large incompressible payloads (several 64 KiB blocks once compressed): deterministic LCG words
     def big(w, v):
